@@ -871,6 +871,10 @@ case('C17', "C17-seed10", "mutant", 'seeded (round 6): types/blob BReader.ToTarR
 case("C09", "C09-D26", "mutant", "historical defect D26 re-introduced: a Docker import by a name that is not in manifest.json warns, returns, and the caller pushes the empty manifest",
      patch="selftest/regress/D26.diff", expect=[("C09.R14", "imageImportDockerAddLayerHandlers", "selection that finds nothing")])
 
+# C08.R13 / D27
+case("C08", "C08-D27", "mutant", "historical defect D27 re-introduced: the sweep of Close does not look at the top directory, where the temp files of index.json and oci-layout are made",
+     patch="selftest/regress/D27.diff", expect=[("C08.R13", "writeIndex", "temp file in the layout's top directory")])
+
 def main():
     bad = 0
     for pid, cases in CASES.items():
